@@ -58,6 +58,36 @@ static size_t ref_remove_prefix(const Str &path, const Str &prefix)
     return p;
 }
 
+// Position-local formulations of the same two definitions, linear in the path length, for the long inputs.
+// They are cross-checked against the component-wise ones above on every short path / pair (harness error if
+// they ever disagree), so the long sub-checks rest on the same reference.
+static size_t skip_sep_local(const Str &s, size_t q)
+{
+    while (q < s.size() && (s[q] == '/' || (s[q] == '.' && (q + 1 == s.size() || s[q + 1] == '/'))))
+        q++;
+    return q;
+}
+static long iterate_local(const Str &s, size_t p)
+{
+    if (p >= s.size())
+        return -1;
+    size_t q = p;
+    if (s[q] != '/')
+        while (q < s.size() && s[q] != '/')
+            q++;
+    return (long)skip_sep_local(s, q);
+}
+static size_t remove_prefix_local(const Str &path, const Str &prefix)
+{
+    size_t p = 0, q = 0;
+    while (p < path.size() && q < prefix.size() && ref_compare_node(path, p, prefix, q) == 0)
+    {
+        p = (size_t)iterate_local(path, p);
+        q = (size_t)iterate_local(prefix, q);
+    }
+    return p;
+}
+
 MC_INIT
 {
     mc::add_check("path_next_iterate", [] {
@@ -89,6 +119,8 @@ MC_INIT
             const char *g = w_path_iterate(b.p);
             mc::crash_context("C19.harness");
             long got = g ? (long)(g - b.p) : -1, w = ref_iterate(s);
+            if (iterate_local(s, 0) != w)
+                mc::harness_error("iterate_local disagrees with the component-wise reference on %s", esc(s).c_str());
             mc::outcome(mc::fmt("iterate off=%ld", got));
             if (got != w)
                 mc::violation("C19.path_iterate.value", "path_iterate(%s) -> offset %ld, want %ld", esc(s).c_str(), got, w);
@@ -133,6 +165,8 @@ MC_INIT
             const char *g = w_path_remove_prefix(ab.p, bb.p);
             mc::crash_context("C19.harness");
             long got = g ? (long)(g - ab.p) : -1, w = (long)ref_remove_prefix(a, b);
+            if ((long)remove_prefix_local(a, b) != w)
+                mc::harness_error("remove_prefix_local disagrees with the component-wise reference on %s, %s", esc(a).c_str(), esc(b).c_str());
             mc::outcome(mc::fmt("rmprefix off=%ld", got));
             if (w > 0)
                 nt++;
@@ -143,6 +177,120 @@ MC_INIT
         if (nt)
             mc::nontrivial();
         mc::more_cases((uint64_t)nb - 1, (uint64_t)(nt ? nt - 1 : 0));
+    });
+
+    // ---------------------------------------------------------------- long paths (see c19_long.cpp for the rationale)
+    mc::add_check("long_paths", [] {
+        Str s = long_input('/', "long path through path_next and a complete path_iterate walk");
+        if (s.size() > 255)
+            mc::nontrivial();
+        for (int pass = 0; pass < 2; pass++)
+        {
+            Run want;
+            bool have = ref_next(s, &want);
+            {
+                CS b(s);
+                unsigned int len = 0xDEAD;
+                mc::crash_context("C19.path_next.memory.long_input");
+                const char *g = w_path_next(b.p, &len);
+                mc::crash_context("C19.harness");
+                long got = g ? (long)(g - b.p) : -1;
+                mc::outcome(mc::fmt("next off=%ld len=%u", got, have ? len : 0));
+                if (got != (have ? (long)want.off : -1))
+                    mc::violation("C19.path_next.value.long_input", "path_next(%s) -> offset %ld, first node is at %ld",
+                                  escb(s).c_str(), got, have ? (long)want.off : -1);
+                else if (have && len != want.len)
+                    mc::violation("C19.path_next.length.long_input", "path_next(%s): length %u, want %zu", escb(s).c_str(), len,
+                                  want.len);
+            }
+            {
+                CS b(s);
+                long first = ref_iterate(s);
+                size_t p = 0;
+                long steps = 0;
+                for (;;)
+                {
+                    mc::crash_context("C19.path_iterate.memory.long_input");
+                    const char *g = w_path_iterate(b.p + p);
+                    mc::crash_context("C19.harness");
+                    long got = g ? (long)(g - b.p) : -1, w = steps == 0 ? first : iterate_local(s, p);
+                    if (got != w)
+                    {
+                        mc::violation("C19.path_iterate.value.long_input", "path_iterate(%s + %zu) -> offset %ld, want %ld (step %ld)",
+                                      escb(s).c_str(), p, got, w, steps);
+                        break;
+                    }
+                    if (got < 0)
+                        break;
+                    p = (size_t)got;
+                    steps++;
+                }
+                mc::outcome(mc::fmt("walk steps=%ld", steps));
+            }
+            for (size_t i = 2; i < s.size(); i += 4) // second pass: dots sprinkled in ("a/./a/./" for the one-letter pattern)
+                if (s[i] != '/')
+                    s[i] = '.';
+        }
+        mc::more_cases(3, 3);
+    });
+
+    mc::add_check("long_path_pairs", [] {
+        std::vector<size_t> Ls = long_lengths();
+        int u = mc::choose((int)Ls.size() * (LONG_NPOS + 3) * 3);
+        size_t L = Ls[u / ((LONG_NPOS + 3) * 3)];
+        int pk = (u / 3) % (LONG_NPOS + 3), shape = u % 3;
+        // a: shape 0 = one component of L bytes; 1 = that + "/tail"; 2 = period-251 filler with '/' every 7th byte
+        Str a(L, 'a');
+        for (size_t i = 0; i < L; i++)
+            a[i] = (shape == 2 && i % 7 == 6) ? '/' : long_filler(i);
+        if (shape == 1)
+            a += "/tail";
+        // b: equal / one byte shorter / one byte longer / different in ONE byte at {0,1,254,255,256,257,len-1}
+        Str b = a;
+        const char *what = "equal";
+        static char buf[64];
+        if (pk < LONG_NPOS)
+        {
+            size_t p = long_pos(pk, L);
+            b[p] = (b[p] == 'z') ? 'y' : 'z';
+            snprintf(buf, sizeof buf, "differs at %zu", p);
+            what = buf;
+        }
+        else if (pk == LONG_NPOS + 1)
+        {
+            b = a.substr(0, L - 1);
+            what = "is one byte shorter";
+        }
+        else if (pk == LONG_NPOS + 2)
+        {
+            b = a.substr(0, L) + "q";
+            what = "is one byte longer";
+        }
+        mc::describe("path_compare_node/path_remove_prefix len=%zu shape=%d, second operand %s", L, shape, what);
+        if (L > 255)
+            mc::nontrivial();
+        for (int swap = 0; swap < 2; swap++)
+        {
+            const Str &x = swap ? b : a, &y = swap ? a : b;
+            CS xb(x, 0), yb(y, 1);
+            mc::crash_context("C19.path_compare_node.memory.long_input");
+            int c = w_path_compare_node(xb.p, yb.p);
+            mc::crash_context("C19.harness");
+            int wc = ref_compare_node(x, 0, y, 0);
+            mc::outcome(mc::fmt("cmp=%d", c));
+            if (c != wc)
+                mc::violation("C19.path_compare_node.value.long_input", "path_compare_node(%s, %s) = %d, want %d", escb(x).c_str(),
+                              escb(y).c_str(), c, wc);
+            mc::crash_context("C19.path_remove_prefix.memory.long_input");
+            const char *g = w_path_remove_prefix(xb.p, yb.p);
+            mc::crash_context("C19.harness");
+            long got = g ? (long)(g - xb.p) : -1, w = (long)remove_prefix_local(x, y);
+            mc::outcome(mc::fmt("rmprefix off=%ld", got));
+            if (got != w)
+                mc::violation("C19.path_remove_prefix.value.long_input", "path_remove_prefix(%s, %s) -> offset %ld, want %ld",
+                              escb(x).c_str(), escb(y).c_str(), got, w);
+        }
+        mc::more_cases(3, 3);
     });
 }
 MC_MAIN
